@@ -2,8 +2,8 @@
 import json, sys
 from nixread import ts, set_node, attr_tree
 f = json.load(sys.stdin)
-w, prop = f['witness'], f['property']
-def out(still, detail=''): print(json.dumps({'still_fails': bool(still), 'detail': detail})); sys.exit(0)
+w, prop, fid = f['witness'], f['property'], f['id']
+def out(still, detail=''): print(json.dumps({'still_fails': bool(still), 'detail': str(detail)[:400]})); sys.exit(0)
 from nix_manipulator import parse
 from nix_manipulator.cli.manipulations import set_value, remove_value
 def apply_ops(doc, ops):
@@ -15,8 +15,31 @@ def apply_ops(doc, ops):
         except Exception as e:
             errs.append(type(e).__name__)
     return text, errs, src
-if prop == 'C12' and f['id'] == 'F-13':
+if fid == 'F-13':
     text, errs, _ = apply_ops(w['doc'], w['ops'])
-    s = set_node(ts(text)); tree, dups = attr_tree(s)
+    tree, dups = attr_tree(set_node(ts(text)))
     out(bool(dups), 'duplicate definitions after the edits: %r in %r' % (dups, text))
+if fid == 'F-23':
+    text, errs, _ = apply_ops(w['doc'], w['ops'])
+    out(errs == [None] and ' '.join(text.split()) == ' '.join(w['doc'].split()), 'result %r errors %r' % (text, errs))
+if fid == 'F-17':
+    src = parse(w['doc']); before = src.rebuild()
+    for op in w['mapping_ops']:
+        if op[0] == 'del': del src[op[1]]
+    gone = False
+    try: src['a']
+    except KeyError: gone = True
+    out(gone and src.rebuild() == before, 'mapping says deleted=%s, text %r' % (gone, src.rebuild()))
+if fid == 'F-06':
+    text, errs, _ = apply_ops(w['doc'], w['ops'])
+    out(errs == [None] and ts(text).has_error, 'emitted %r' % text)
+if fid == 'F-27':
+    text, errs, _ = apply_ops(w['doc'], w['ops'])
+    out(errs != [None], 'errors %r' % errs)
+if fid == 'F-08':
+    text, errs, _ = apply_ops(w['doc'], w['ops'])
+    out(errs == ['ResolutionError'], 'errors %r' % errs)
+if fid == 'F-07':
+    text, errs, _ = apply_ops(w['doc'], w['ops'])
+    out(errs == [None] and ts(text).has_error, 'emitted %r' % text)
 out(False, 'no replayer for this finding')
